@@ -40,7 +40,7 @@ var bothForms bool
 func smrPlans(tier core.Tier) []plan {
 	bothForms = tier == core.Thorough
 	if tier == core.Thorough {
-		return []plan{{uChain, 9}, {uFork, 8}, {uOrph, 8}}
+		return []plan{{uChain, 9}, {uFork, 8}, {uForkH, 6}, {uOrph, 8}}
 	}
 	return []plan{{uChain, 7}, {uFork, 7}, {uOrph, 6}}
 }
@@ -277,7 +277,7 @@ func newSmrInst(u *universe, c *counters) *smrInst {
 		addrs = append(addrs, world.Addr(v))
 	}
 	cr := cbftCrypto(selfName)
-	t := newTree()
+	t := newTree(u)
 	// as tdpos.go:111-124 / xpoa.go:122-135 assemble it (StartHeight 1: Genesis is block 0)
 	pm := &bft.DefaultPaceMaker{CurrentView: 1}
 	sr := &bft.DefaultSaftyRules{Crypto: cr, QcTree: t, Log: world.NopLogger{}}
